@@ -307,7 +307,14 @@ class Interp:
         return [(st, self.lit(e.value))]
 
     def ev_Name(self, st, fr, e):
-        return [(st, self.lookup(st, fr, e.id))]
+        v = self.lookup(st, fr, e.id)
+        if isinstance(v, OptV):
+            # narrow an Optional whose None-ness is already decided on this path
+            if not self.feasible(st, v.isnone):
+                v = v.inner
+            elif not self.feasible(st, z3.Not(v.isnone)):
+                v = NoneV()
+        return [(st, v)]
 
     def ev_Tuple(self, st, fr, e):
         return [(s, vs if isinstance(vs, Exit) else TupleV(vs)) for s, vs in self.ev_seq(st, fr, e.elts)]
